@@ -85,21 +85,26 @@ def compare_result(L, p, f, quals, type_bytes):
     return acc
 
 
+def mat_arg(L, a):
+    """an argument of a hook edit / builder call: text, a hole, or a list of texts and holes (concatenated; valid UTF-8 as a whole)"""
+    if isinstance(a, list):
+        out = []
+        for x in a:     # the same hole name twice = the same bytes twice
+            out.extend(L.sym_bytes(x[1], x[2]) if isinstance(x, tuple) else list(x.encode()))
+        L.assume_utf8(out)
+        return out
+    if isinstance(a, tuple):
+        b = L.sym_bytes(a[1], a[2])
+        L.assume_utf8(b)
+        return b
+    return list(a.encode())
+
+
 def h_parse(L, parts, conv_ok, hook):
     I = L.I
     s, holes = template_bytes(L, parts)
     L.assume_utf8(s)
-    hk = []
-    for e in hook:
-        args = []
-        for a in e[1:]:
-            if isinstance(a, tuple):
-                b = L.sym_bytes(a[1], a[2])
-                L.assume_utf8(b)
-                args.append(b)
-            else:
-                args.append(list(a.encode()))
-        hk.append((e[0],) + tuple(args))
+    hk = [(e[0],) + tuple(mat_arg(L, a) for a in e[1:]) for e in hook]
     I.shape_cfg = {'conv_ok': conv_ok, 'hook': hk}
     I.log = []
     req = {'op': 'shape', 'mode': 'parse', 's': SymStr(s), 'conv_ok': conv_ok, 'hook': hook_request(hk)}
@@ -203,11 +208,7 @@ def h_build(L, name_n, steps, hook, type_string=None):
     name = L.sym_bytes('n', name_n)
     L.assume_utf8(name)
     def mat(a):
-        if isinstance(a, tuple):
-            b = L.sym_bytes(a[1], a[2])
-            L.assume_utf8(b)
-            return b
-        return list(a.encode())
+        return mat_arg(L, a)
     hk = [(e[0],) + tuple(mat(a) for a in e[1:]) for e in hook]
     st = [(m,) + tuple(mat(a) for a in args) for m, *args in steps]
     ts = None if type_string is None else mat(type_string)
@@ -291,6 +292,12 @@ def queries(tier):
                     continue
                 qs.append(Query('parse %s conv=%s hook=%s' % (show_template(parts), 'ok' if conv_ok else 'fail', hook), h_parse,
                                 {'parts': parts, 'conv_ok': conv_ok, 'hook': hook}, bound='input %s; hook edits %s with free arguments' % (show_template(parts), hook)))
+    # algorithm names mixing ASCII and non-ASCII letters written by the hook: lower-cased as a whole, repeated ones refused
+    # (one concrete input each: the interesting freedom is in the hook's value)
+    for hook in ([('qual', 'checksum', ['A', H(2), ':0A'])], [('qual', 'checksum', [H(2), 'A:'])], [('qual', 'checksum', ['A', ('hole', 'x', 2), ':,a', ('hole', 'x', 2), ':'])],
+                 [('qual', 'checksum', [('hole', 'x', 2), 'A:,', ('hole', 'x', 2), 'a:00'])]):
+        qs.append(Query('parse pkg:custom/n conv=ok hook=%s' % (hook,), h_parse, {'parts': ['pkg:custom/n'], 'conv_ok': True, 'hook': hook}, bound='input pkg:custom/n; hook edits %s with free arguments' % (hook,)))
+        qs.append(Query('build name=⟦1⟧ [] hook=%s' % (hook,), h_build, {'name_n': 1, 'steps': [], 'hook': hook}, bound='builder with free name; hook edits %s' % (hook,)))
     for hook in hooks:
         for steps in ([], [('with_qualifier', 'k', H(1, 'q'))], [('with_namespace', H(1, 'a')), ('with_version', H(1, 'b')), ('with_subpath', H(1, 'c'))]):
             qs.append(Query('build name=⟦1⟧ %s hook=%s' % ([s[0] for s in steps], hook), h_build, {'name_n': 1, 'steps': steps, 'hook': hook},
@@ -348,6 +355,12 @@ def confirm(v, resp):
                 if last is e and got != want:
                     return 'hook wrote %s=%r but the PURL reports %r' % (e[0], want, got)
         ck = dict((hx(k), hx(x)) for k, x in o['quals']).get(b'checksum')
+        left = (resp.get('pre') or {}).get('checksum_left')
+        if left is not None and not any(e[0] == 'fail' for e in hook):
+            if left.get('malformed'):
+                return 'a malformed checksum written by the hook is not refused (%r)' % ck
+            if ck != hx(left['canonical']):
+                return 'checksum written by the hook is reported as %r, its canonical text is %r' % (ck, hx(left['canonical']))
         if ck is not None:
             ents = [e.rsplit(b':', 1) for e in ck.split(b',') if b':' in e]
             if len(ents) != len(ck.split(b',')) or [a for a, _ in ents] != sorted(a for a, _ in ents) or any(len(h) % 2 or not re.fullmatch(rb'[0-9a-f]*', h) for _, h in ents):
@@ -388,6 +401,12 @@ def concrete_expectation(pre, hook):
     if f['name'] == b'':
         return 'the hook left an empty name'
     ck = quals.get(b'checksum')
+    left = pre.get('checksum_left')
+    if ck and left is not None:
+        # the oracle's reference reading of the value (handles non-ASCII algorithm names with the real char::to_lowercase)
+        if left.get('malformed'):
+            return 'the hook left a malformed checksum'
+        ck = None
     if ck:
         algs = []
         for ent in ck.split(b','):
